@@ -834,8 +834,19 @@ Apply(st, e) ==
     [] e.e = "logrec" -> ApplyLogRec(st, e)
     [] e.e = "logcall" -> ApplyLogCall(st, e)
     [] e.e = "logcheck" -> ApplyLogCheck(st, e)
-    [] e.e = "panic" -> R([st EXCEPT !.panicked = TRUE],
-                          IF e.harness THEN {<<"HARNESS", e.msg>>} ELSE {<<p, "panic: " \o e.msg>> : p \in st.props})
+    [] e.e = "panic" ->
+         \* a panic is charged to the properties that speak about the operation it
+         \* happened in (run() can execute anything: charged to the case's properties)
+         LET timerOps == {"tadd", "after", "tmac", "tupd", "tdel", "tact", "nexp", "nwait", "nwaitmax"}
+             queueOps == {"defer", "lazy", "idle"}
+             actorOps == {"acreate", "call", "apply", "kill", "owndrop", "ownclone", "ownanon", "keepown", "unkeepown",
+                          "mkret", "ret", "retdrop", "keepret", "mkfwd", "fwd", "refstorm", "stop", "fail"}
+             who == IF e.during \in timerOps THEN {"C08"}
+                    ELSE IF e.during \in queueOps THEN st.props \cap {"C01", "C06", "C16", "C17", "C18"}
+                    ELSE IF e.during \in actorOps THEN st.props \cap {"C02", "C03", "C04", "C05", "C16", "C18", "C20"}
+                    ELSE st.props
+         IN R([st EXCEPT !.panicked = TRUE],
+              IF e.harness THEN {<<"HARNESS", e.msg>>} ELSE {<<p, "panic in " \o e.during \o ": " \o e.msg>> : p \in who})
     [] e.e = "crash" -> R([st EXCEPT !.panicked = TRUE], {<<p, "process aborted: " \o e.msg>> : p \in st.props})
     [] e.e = "dh" -> R([st EXCEPT !.dhq = Append(@, IF Has(st.items, e.item) THEN st.items[e.item].q ELSE "none")], {})
     [] e.e = "dhe" -> R([st EXCEPT !.dhq = IF @ = << >> THEN @ ELSE SubSeq(@, 1, Len(@) - 1)], {})
